@@ -219,15 +219,19 @@ fn blend_sample(mode: BlendMode, is_alpha_channel: bool, premultiplied: bool, cl
 
 /// Reference compositor: returns the displayed canvas of every keyframe.
 fn compose(p: &Program, frames: &[Img]) -> Vec<Img> {
+    let mut slots: [Option<Img>; 4] = [None, None, None, None];
+    compose_upto(p, frames, &mut slots)
+}
+
+fn compose_upto(p: &Program, frames: &[Img], slots: &mut [Option<Img>; 4]) -> Vec<Img> {
     let (w, h) = (p.width as usize, p.height as usize);
     let ncol = p.num_color();
     let nch = ncol + p.extra.len();
-    let mut slots: [Option<Img>; 4] = [None, None, None, None];
     let mut shown = Vec::new();
     for (f, fi) in p.frames.iter().zip(frames) {
         let patched;
         let fi = if let Some(ps) = &f.patches {
-            patched = apply_patches(p, ps, fi, &slots);
+            patched = apply_patches(p, ps, fi, slots);
             &patched
         } else {
             fi
@@ -348,6 +352,17 @@ fn known_site(p: &Program) -> &'static str {
                 return "alpha_blend_on_crop_partly_outside_canvas";
             }
         }
+    }
+    // same family through the patch stage: an alpha-using patch blend mode in a program where some
+    // frame reaches outside the canvas (the reference grids then carry per-channel regions that
+    // differ, and blend::patch indexes the source alpha with the colour channel's offsets)
+    let any_outside = p.frames.iter().any(|f| match f.crop {
+        Some((x0, y0, w, h)) => x0 < 0 || y0 < 0 || x0 as i64 + w as i64 > p.width as i64 || y0 as i64 + h as i64 > p.height as i64,
+        None => false,
+    });
+    let patch_alpha = p.frames.iter().any(|f| f.patches.as_ref().map(|ps| ps.refs.iter().any(|r| r.targets.iter().any(|t| t.2.iter().any(|b| b.mode >= 4)))).unwrap_or(false));
+    if any_outside && patch_alpha {
+        return "patch_alpha_blend_with_crop_partly_outside_canvas";
     }
     "other"
 }
@@ -493,6 +508,25 @@ pub fn minimise(sc: &Scenario, still: &dyn Fn(&Scenario) -> bool) -> Scenario {
 
 /// Triage helper: prints decoder vs model around a pixel.
 pub fn debug(sc: &Scenario, k: usize, x: usize, y: usize) {
+    // C05_EDIT="nocrop<i>" / "nopatchalpha": triage edits applied to the program before re-encoding
+    let mut sc = sc.clone();
+    if let Ok(e) = std::env::var("C05_EDIT") {
+        sc.program.rebuild();
+        for tok in e.split(',') {
+            if let Some(i) = tok.strip_prefix("nocrop").and_then(|t| t.parse::<usize>().ok()) {
+                sc.program.frames[i].crop = None;
+            }
+            if let Some(i) = tok.strip_prefix("replace").and_then(|t| t.parse::<usize>().ok()) {
+                for b in &mut sc.program.frames[i].ec_blend {
+                    b.mode = BlendMode::Replace;
+                }
+            }
+        }
+        sc.program.fix_transforms();
+        sc.bytes = sc.program.encode().expect("encode").0;
+        sc.standalone = sc.program.frames.iter().map(|f| Hex(standalone_of(&sc.program, f).encode().expect("encode standalone").0)).collect();
+    }
+    let sc = &sc;
     let p = &sc.program;
     let frames: Vec<Img> = sc.standalone.iter().map(|s| decode_planar(&s.0, sc.force_wide).unwrap()).collect();
     let model = compose(p, &frames);
@@ -508,7 +542,29 @@ pub fn debug(sc: &Scenario, k: usize, x: usize, y: usize) {
             println!("  y={yy}: dec [{}]  model [{}]", dec.join(" "), mo.join(" "));
         }
     }
+    if std::env::var("C05_AT").is_ok() {
+        // replay the compositor step by step and print the slot contents at the source position
+        let mut slots: [Option<Img>; 4] = [None, None, None, None];
+        let partial = compose_upto(p, &frames, &mut slots);
+        for (i, s) in slots.iter().enumerate() {
+            if let (Some(s), Ok(v)) = (s, std::env::var("C05_AT")) {
+                let xy: Vec<usize> = v.split(',').filter_map(|t| t.parse().ok()).collect();
+                if xy[0] < s.w && xy[1] < s.h {
+                    println!("   model slot {i} ({}x{}) at {:?}: {:?}", s.w, s.h, xy, s.ch.iter().map(|c| c[xy[1] * s.w + xy[0]]).collect::<Vec<_>>());
+                }
+            }
+        }
+        let _ = partial;
+    }
     for (i, f) in frames.iter().enumerate() {
         println!("frame {i}: {}x{} ch0 first row {:?}", f.w, f.h, &f.ch[0][..f.w.min(6)]);
+        if let Ok(v) = std::env::var("C05_AT") {
+            // C05_AT="x,y": every channel of every standalone frame at that position
+            let xy: Vec<usize> = v.split(',').filter_map(|t| t.parse().ok()).collect();
+            if xy.len() == 2 && xy[0] < f.w && xy[1] < f.h {
+                let vals: Vec<f32> = f.ch.iter().map(|c| c[xy[1] * f.w + xy[0]]).collect();
+                println!("   frame {i} at {:?}: {:?}", xy, vals);
+            }
+        }
     }
 }
